@@ -19,9 +19,13 @@ EXTENDS Naturals, Sequences, FiniteSets, TLC, Json
  Lazy views of the field's own contents (reversed(x.f), a generator over x.f, itertools.chain(x.f, [y])) are assignments
  whose value is evaluated while the setter runs: ClearBeforeCopy evaluates them against the emptied container.
  ***************************************************************************************************)
-CONSTANTS MaxSteps, MaxLen, Hist, ClearBeforeCopy, CopyThroughSet, UnhookedExtend, AliasedFirstAssignment
-VARIABLES lst, st, facts, ilst, ist, ifacts, steps, h, done
-vars == <<lst, st, facts, ilst, ist, ifacts, steps, h, done>>
+CONSTANTS MaxSteps, MaxLen, Hist, ClearBeforeCopy, CopyThroughSet, UnhookedExtend, AliasedFirstAssignment,
+          Churn,               \* TRUE: before every write each element that is in neither field of `a` dies and is replaced by a
+                               \* fresh object of the same name (short-lived elements on a long-lived owner): its facts go with it
+          StaleReportedCache   \* deviation: elements are remembered by address as "already reported"; a fresh object at a
+                               \* remembered address is stored but never recorded
+VARIABLES lst, st, facts, ilst, ist, ifacts, steps, h, done, cache
+vars == <<lst, st, facts, ilst, ist, ifacts, steps, h, done, cache>>
 Elems == {"b", "c", "d"}
 Seqs == UNION { [1..n -> Elems] : n \in 0..2 }
 Sets == SUBSET Elems
@@ -38,16 +42,23 @@ Slice(s, i, j, t) == SubSeq(s, 1, i) \o t \o SubSeq(s, j + 1, Len(s))           
 \* a duplicate-free ordering of a set in SOME order (what copying through a set leaves of a list)
 Orders(S) == { s \in [1..Cardinality(S) -> S] : \A i, j \in DOMAIN s : i # j => s[i] # s[j] }
 
-Init == /\ lst = <<>> /\ st = {} /\ facts = {} /\ ilst = <<>> /\ ist = {} /\ ifacts = {} /\ steps = 0 /\ h = <<>> /\ done = FALSE
+Init == /\ lst = <<>> /\ st = {} /\ facts = {} /\ ilst = <<>> /\ ist = {} /\ ifacts = {} /\ steps = 0 /\ h = <<>> /\ done = FALSE /\ cache = {}
 
 \* ---- one write: R-level result (nl, ns) and I-level result (il, is, recorded elements)
+\* facts that survive the churn before a write: those whose objects are all still referenced from a's fields
+Kept(F, l, S) == IF Churn THEN { f \in F : {f[2], f[3]} \subseteq ({"a"} \cup SeqSet(l) \cup S) } ELSE F
 Do(op, nl, ns, il, is, recL, recS) ==
+  LET seen == IF StaleReportedCache THEN cache ELSE {}
+      effL == SelectSeq(recL, LAMBDA x : x \notin seen)
+      effS == recS \ seen
+      nf == Kept(facts, lst, st) \cup FactsOfList(nl) \cup FactsOfSet(ns)
+  IN
   /\ Len(nl) <= MaxLen
-  /\ lst' = nl /\ st' = ns /\ facts' = facts \cup FactsOfList(nl) \cup FactsOfSet(ns)
-  /\ ilst' = il /\ ist' = is /\ ifacts' = ifacts \cup FactsOfList(recL) \cup FactsOfSet(recS)
+  /\ lst' = nl /\ st' = ns /\ facts' = nf
+  /\ ilst' = il /\ ist' = is /\ ifacts' = Kept(ifacts, ilst, ist) \cup FactsOfList(effL) \cup FactsOfSet(effS)
+  /\ cache' = cache \cup SeqSet(recL) \cup recS
   /\ steps' = steps + 1 /\ done' = FALSE
-  /\ h' = IF Hist THEN Append(h, [op |-> op, lst |-> nl, st |-> ns,
-                                  facts |-> facts \cup FactsOfList(nl) \cup FactsOfSet(ns)]) ELSE h
+  /\ h' = IF Hist THEN Append(h, [op |-> op, lst |-> nl, st |-> ns, facts |-> nf]) ELSE h
 \* the setter applied to a new value v (a sequence) while the container currently holds cur
 SetterList(cur, v, selfref) ==
   LET src == IF selfref /\ ClearBeforeCopy THEN <<>> ELSE v
@@ -72,11 +83,11 @@ AssignViewS(kind, x) ==
 \* of its own fields.  R: a2's fields hold the same elements and every element is related to a2 as well.  Only as the last
 \* write (whether the two objects share later in-place writes is not this property's business).
 Replace ==
-  /\ steps = MaxSteps - 1
+  /\ steps = MaxSteps - 1 /\ ~Churn
   /\ lst' = lst /\ st' = st /\ ilst' = ilst /\ ist' = ist
   /\ facts' = facts \cup FactsOfListS("a2", lst) \cup FactsOfSetS("a2", st)
   /\ ifacts' = IF AliasedFirstAssignment THEN ifacts ELSE ifacts \cup FactsOfListS("a2", ilst) \cup FactsOfSetS("a2", ist)
-  /\ steps' = steps + 1 /\ done' = FALSE
+  /\ steps' = steps + 1 /\ done' = FALSE /\ UNCHANGED cache
   /\ h' = IF Hist THEN Append(h, [op |-> [k |-> "replace"], lst |-> lst, st |-> st, facts |-> facts']) ELSE h
 AppendL(x) == Do([k |-> "append", x |-> x], Append(lst, x), st, Append(ilst, x), ist, <<x>>, {})
 ExtendL(s) == Do([k |-> "extend", v |-> s], lst \o s, st, ilst \o s, ist, IF UnhookedExtend THEN <<>> ELSE s, {})
@@ -95,7 +106,7 @@ UpdateS(S) == Do([k |-> "update", v |-> S], lst, st \cup S, ilst, ist \cup S, <<
 
 \* the behaviour is complete: a single successor, so that generator configs print each behaviour once even in
 \* simulation mode (TLC evaluates constraints/invariants on every candidate successor)
-Finish == steps = MaxSteps /\ ~done /\ done' = TRUE /\ UNCHANGED <<lst, st, facts, ilst, ist, ifacts, steps, h>>
+Finish == steps = MaxSteps /\ ~done /\ done' = TRUE /\ UNCHANGED <<lst, st, facts, ilst, ist, ifacts, steps, h, cache>>
 Write == /\ steps < MaxSteps
          /\ \/ \E s \in Seqs : AssignL(s) \/ IAddL(s) \/ ExtendL(s)
             \/ SelfAssignL
@@ -112,6 +123,6 @@ Spec == Init /\ [][Next]_vars
 \* ---- properties: the implementation-shaped write keeps the data and records every element
 KeepsData == ilst = lst /\ ist = st
 InfersAlike == ifacts = facts
-Monotone == [][facts \subseteq facts' /\ ifacts \subseteq ifacts']_vars
+Monotone == [][Churn \/ (facts \subseteq facts' /\ ifacts \subseteq ifacts')]_vars
 Emit == IF Hist /\ done THEN PrintT(ToJson([h |-> h])) ELSE TRUE
 ====
